@@ -23,6 +23,7 @@ type fieldProv struct {
 	via     map[string]bool
 	consts  []constant.Value
 	unknown bool
+	stack   []*ssa.Call // call sites entered while walking callee results (context for parameters)
 }
 
 func (fp *fieldProv) addGroup(ri *regexInfo, idx int) {
@@ -136,6 +137,14 @@ func (p *Prog) provWalk(v ssa.Value, fp *fieldProv, seen map[ssa.Value]bool, dep
 				idx = i
 			}
 		}
+		if n := len(fp.stack); n > 0 && fp.stack[n-1].Call.StaticCallee() == fn && idx >= 0 && idx < len(fp.stack[n-1].Call.Args) {
+			// reached through this call's result: the parameter is this call's argument
+			site := fp.stack[n-1]
+			fp.stack = fp.stack[:n-1]
+			p.provWalk(site.Call.Args[idx], fp, map[ssa.Value]bool{}, depth+1)
+			fp.stack = append(fp.stack, site)
+			return
+		}
 		n := p.CG.Nodes[fn]
 		if n == nil || len(n.In) == 0 {
 			fp.via["input"] = true
@@ -174,13 +183,16 @@ func (p *Prog) provWalk(v ssa.Value, fp *fieldProv, seen map[ssa.Value]bool, dep
 		switch {
 		case p.IsRepoFn(f) && f.Blocks != nil:
 			fp.via[f.Name()] = true
+			fp.stack = append(fp.stack, x)
+			inner := map[ssa.Value]bool{}
 			for _, b := range f.Blocks {
 				if ret, ok := b.Instrs[len(b.Instrs)-1].(*ssa.Return); ok {
 					for _, rv := range ret.Results {
-						p.provWalk(rv, fp, seen, depth+1)
+						p.provWalk(rv, fp, inner, depth+1)
 					}
 				}
 			}
+			fp.stack = fp.stack[:len(fp.stack)-1]
 		case strings.HasPrefix(name, "(*regexp.Regexp)"):
 			fp.via[short] = true
 			if len(x.Call.Args) > 1 {
@@ -223,6 +235,7 @@ func (p *Prog) resolveSubmatch(v ssa.Value, seen map[ssa.Value]bool, depth int) 
 				idx = i
 			}
 		}
+
 		var out []*ssa.Call
 		if n := p.CG.Nodes[fn]; n != nil {
 			for _, e := range n.In {
